@@ -43,9 +43,21 @@ Theorem C18_export_shape : forall (A : Arith) times (e : @erec A) us cols, expor
 Proof. exact (@export_shape). Qed.
 (** and each exported value is the recorded sample converted to the requested unit (the definition of [convert]; the conversion keeps the
     SI magnitude by C05) *)
+(** Powertrain.export_time_variables (the method): one file per element in the powertrain's order, each the export above with the same
+    requested units; a raising element stops the loop and the files written before it are those of the elements before it *)
+Theorem C18_export_method : forall (A : Arith) times (els : list (@erec A)) us,
+  let r := export_all times els us in
+  exists done, map fst (fst r) = map (@er_name A) done /\
+    Forall2 (fun f e => fst f = er_name e /\ export times e us = Ok (snd f)) (fst r) done /\
+    match snd r with
+    | None => done = els
+    | Some x => exists e rest, els = (done ++ e :: rest)%list /\ export times e us = Err x
+    end.
+Proof. exact (@export_all_files). Qed.
 Theorem C18_convert_one_per_sample : forall (A : Arith) l u ys, @convert A l u = Ok ys -> length ys = length l.
 Proof. exact (@convert_length). Qed.
 
 Print Assumptions C18_snapshot_columns.
 Print Assumptions C18_between_instants.
 Print Assumptions C18_export_shape.
+Print Assumptions C18_export_method.
